@@ -572,4 +572,40 @@ def entry_points(chk, repo):
             lab = f'quick_dual_body_tidal_dissipation (obliquity tides {"on" if obl_on else "off"}{mode})'
             chk.ob('R11.9', f'{lab}: the two worlds\' returned heating and spin-rate derivatives and the returned da/dt, de/dt balance energy' + ('' if obl_on else ' and angular momentum'), not bad,
                    '; '.join(bad[:2]), mq.where(fdu), key=f'R11.9|{lab}', method='whole-function interpretation (real mode summation, compliance stubbed) + GF(p^2) PIT')
-    chk.floor('R11.9', 8)
+    # call-history independence of the dual entry point: scenarios sharing e and the two worlds, differing in one option, in one interpreter state and in two orders
+    Ms = (X.atom('M0', 'pos'), X.atom('M1', 'pos')); Cs = (X.atom('C0', 'pos'), X.atom('C1', 'pos')); sps = (X.atom('spin0'), X.atom('spin1'))
+    base_kw = dict(radii=(X.atom('R0', 'pos'), X.atom('R1', 'pos')), masses=Ms, gravities=(X.atom('g0', 'pos'), X.atom('g1', 'pos')), densities=(X.atom('rho0', 'pos'), X.atom('rho1', 'pos')),
+                   mois=Cs, viscosities=(X.atom('eta0', 'pos'), X.atom('eta1', 'pos')), shear_moduli=(X.atom('mu0', 'pos'), X.atom('mu1', 'pos')), rheologies=('Maxwell', 'Maxwell'),
+                   eccentricity=e, orbital_frequency=n, spin_frequencies=sps)
+    scen = {'e^2, l<=2': dict(eccentricity_truncation_lvl=2), 'e^4, l<=2': dict(eccentricity_truncation_lvl=4), 'e^2, l<=3': dict(eccentricity_truncation_lvl=2, max_tidal_order_l=3),
+            'e^2, l<=2, obliquity tides': dict(eccentricity_truncation_lvl=2, obliquities=(X.atom('I0'), X.atom('I1')), use_obliquity=True)}
+
+    def flat(out):
+        vals = {}
+        for w_ in ('host', 'secondary'):
+            for q in ('tidal_heating', 'spin_rate_derivative'):
+                vals[f'{w_}.{q}'] = X.lift(out[w_][q])
+        for q in ('semi_major_axis_derivative', 'eccentricity_derivative'):
+            vals[q] = X.lift(out[q])
+        return vals
+
+    def fresh_it():
+        i_ = Interp(repo, hooks={'call': call_hook, 'branch': branch_hook}, max_depth=12)
+        return i_
+    alone = {}
+    for nm_, kw_ in scen.items():
+        a_ = dict(base_kw); a_.update(kw_)
+        alone[nm_] = flat(fresh_it().call(mq, fdu, [], a_))
+    bad = []
+    for order in (list(scen), list(reversed(list(scen)))):
+        ih = fresh_it(); done = []
+        for nm_ in order:
+            a_ = dict(base_kw); a_.update(scen[nm_])
+            got = flat(ih.call(mq, fdu, [], a_))
+            for q, v_ in got.items():
+                if not d.equal(v_, alone[nm_][q]):
+                    bad.append(f'[{nm_}] after [{" ; ".join(done)}]: {q} differs from the same call in a fresh process'); break
+            done.append(nm_)
+    chk.ob('R11.9', 'quick_dual_body_tidal_dissipation: a call returns the same heating and rates whatever was called before it (four scenarios sharing e and the worlds, in two orders)', not bad,
+           '; '.join(bad[:2]), mq.where(fdu), key='R11.9|call-history', method='sequences of calls in one interpreter state vs fresh states, GF(p^2) PIT')
+    chk.floor('R11.9', 9)
